@@ -23,7 +23,7 @@ SYSLIBS := -lsqlite3 -ldl -lpthread
 # object then shadows the archive member of the same name) compiled with the same flags.
 ENGINES ?= $(wildcard /verif/src/engines/*.cpp)
 EXTRA_SRCS ?=
-SRCS := $(wildcard /verif/src/core/*.cpp) $(wildcard /verif/src/nodesim/*.cpp) $(wildcard /verif/src/simfs/*.cpp) $(ENGINES)
+SRCS := $(wildcard /verif/src/core/*.cpp) $(wildcard /verif/src/nodesim/*.cpp) $(wildcard /verif/src/simfs/*.cpp) $(wildcard /verif/src/threadsim/*.cpp) $(ENGINES)
 OBJS := $(patsubst /verif/src/%.cpp,$(OBJ)/%.o,$(SRCS)) $(patsubst %.cpp,$(OBJ)/extra/%.o,$(notdir $(EXTRA_SRCS)))
 vpath %.cpp $(sort $(dir $(EXTRA_SRCS)))
 
